@@ -115,6 +115,7 @@ type UnitGen struct {
 	epochCtr    int
 	loopFrames  int
 	newNames    map[string]bool
+	pure        int
 }
 
 func (u *UnitGen) freshName(base string) string {
@@ -128,11 +129,17 @@ func (u *UnitGen) freshName(base string) string {
 }
 
 func (u *UnitGen) emit(e Event) {
+	if u.pure > 0 {
+		return // evaluating a contract expression: terms only, no events
+	}
 	u.events = append(u.events, e)
 }
 
 // declare a fresh unconstrained constant.
 func (u *UnitGen) havoc(base string, so Sort) Term {
+	if u.pure > 0 {
+		unsup("a method used in a contract expression is not a pure function of the state (%s)", base)
+	}
 	n := u.freshName(base)
 	u.emit(Event{Kind: EvConst, Name: n, Sort: so})
 	return Term{n, so}
@@ -141,6 +148,9 @@ func (u *UnitGen) havoc(base string, so Sort) Term {
 // define names a term (keeps formulas linear in size).
 func (u *UnitGen) define(base string, t Term) Term {
 	if len(t.S) < 40 && !strings.Contains(t.S, " ") {
+		return t
+	}
+	if u.pure > 0 {
 		return t
 	}
 	n := u.freshName(base)
